@@ -29,14 +29,30 @@ def case_sig(case):
     return hashlib.sha1(json.dumps(case['events'], sort_keys=True).encode()).hexdigest()[:16]
 
 
-def run(ctx, res, pid, aspects, plan, oracle_from_problems=('C10',)):
+def corpus_cases(pid):
+    """minimised earlier failures and witnesses of known findings: always run first"""
+    import glob
+    import os
+    out = []
+    for path in sorted(glob.glob(os.path.join(common.VERIF, 'corpus', pid, '*.json'))):
+        c = json.load(open(path))
+        out.append(c['case'] if 'case' in c and 'events' not in c else c)
+    return out
+
+
+def run(ctx, res, pid, aspects, plan, oracle_from_problems=('C10',), extra_oracle=None):
     """plan: list of (count_quick, count_thorough, kwargs for broker.gen_history, judge?)"""
     cases = []
+    if ctx.scale == 1:
+        for case in corpus_cases(pid):
+            res.count('corpus')
+            add_case(ctx, res, pid, cases, case, not case.get('async_'), oracle_from_problems, extra_oracle)
     for pi, (nq, nt, kw, use_judge) in enumerate(plan):
         for k in range(ctx.n(nq, nt)):
             rng = ctx.rng('%s/%d/%d' % (pid, pi, k))
             case, scripts = broker.gen_history(rng, **kw)
-            add_case(ctx, res, pid, cases, case, use_judge, oracle_from_problems)
+            case['_roles'] = {str(sc.q): sc.role for sc in scripts}
+            add_case(ctx, res, pid, cases, case, use_judge, oracle_from_problems, extra_oracle)
     finish(ctx, res, pid, aspects, cases)
 
 
@@ -86,11 +102,15 @@ def finish(ctx, res, pid, aspects, cases):
     common.correspond(ctx, res, cases, IMPORTS, compare=compare, sample=sample, shard_bytes=30000)
 
 
-def replay_case(pid, case):
+def replay_case(pid, case, extra_oracle=None):
     """re-run a stored case on the current tree through the judge"""
     obs, d = broker.drive(case)
-    jd = J.Judge(case, d)
-    fails = jd.run()
+    fails = {}
+    if not case.get('async_'):
+        fails = J.Judge(case, d).run()
     if d.problems:
         return d.problems[0]
-    return fails.get(pid) or J.necessary(case, d).get(pid)
+    r = fails.get(pid) or J.necessary(case, d).get(pid)
+    if not r and extra_oracle:
+        r = extra_oracle(case, d)
+    return r
